@@ -340,3 +340,29 @@ pub fn strat_arbitrary() -> BoxedStrategy<ProbeCase> {
         })
         .boxed()
 }
+
+/// Fuzz sanitizer for probe cases decoded from raw bytes.
+pub fn fuzz_probe(mut c: ProbeCase) -> ProbeCase {
+    c.calls.truncate(40);
+    for call in c.calls.iter_mut() {
+        match call {
+            Call::Deliver { tag, exchange, rk, .. } => {
+                gen::clamp_short(tag);
+                gen::clamp_short(exchange);
+                gen::clamp_short(rk);
+            }
+            Call::Return { text, exchange, rk, .. } => {
+                gen::clamp_short(text);
+                gen::clamp_short(exchange);
+                gen::clamp_short(rk);
+            }
+            Call::GetOk { exchange, rk, .. } => {
+                gen::clamp_short(exchange);
+                gen::clamp_short(rk);
+            }
+            Call::Header { props, .. } => gen::sanitize_props(props),
+            Call::Body { len, .. } => *len %= 20_001,
+        }
+    }
+    c
+}
